@@ -116,6 +116,9 @@ def make(name, objects, pool, gates, *threads, **extra):
     def resolve(op):
         if 'ref' in op:
             op['f'] = labels[op.pop('ref')]
+        if op.get('aw'):
+            # a label in an await list is a nested await of that future (encoded as the negated op id)
+            op['aw'] = [-labels[a] if isinstance(a, str) else a for a in op['aw']]
         op.pop('label', None)
         for b in op.get('body', []):
             resolve(b)
@@ -212,6 +215,12 @@ def fsync_families(pools=(0, 1, 2)):
         out.append(make('FS_PO_Fire_AW_p%d' % p, 1, p, 1, [FS(1, aw=[1], label='f'), PO('f'), FIRE(1), AW('f')], [D(1), S(1)]))
         out.append(make('FS_DR_D_p%d' % p, 1, p, 0, [FS(1, label='f'), DR('f'), D(1)], [T(1)]))
         out.append(make('D_FSaw_S_p%d' % p, 1, p, 0, [D(1), FS(1, then='await')], [S(1)]))
+    # nested awaits of one Desync's future from another's (the repository's four nested-await tests as exhaustive scenarios)
+    for p in (1, 2) if len(pools) > 1 else (1,):
+        out.append(make('nest_FSa_awaits_FDb_p%d' % p, 2, p, 0, [FS(1, then='await', body=[FD(2, label='x')], aw=['x'])]))
+        out.append(make('nest_FDb_awaits_FSa_p%d' % p, 2, p, 0, [FD(2, then='await', body=[FS(1, label='x')], aw=['x'])]))
+        out.append(make('nest_FSa_awaits_FSb_p%d' % p, 2, p, 0, [FS(1, then='await', body=[FS(2, label='x')], aw=['x'])], [D(2), S(1)]))
+        out.append(make('nest_FDa_awaits_FDb_g_p%d' % p, 2, p, 1, [FD(1, then='await', body=[FD(2, aw=[1], label='x')], aw=['x']), S(2)], [FIRE(1)]))
     return out
 
 
